@@ -26,7 +26,7 @@ type Input struct {
 }
 
 type expect struct {
-	errAt int // index of the first member the rule rejects, -1 if none
+	errAt  int // index of the first member the rule rejects, -1 if none
 	byName map[string]int64
 }
 
@@ -372,7 +372,7 @@ func replay(tier string, raw json.RawMessage) (bool, string, string) {
 func init() {
 	core.Register(&core.Prop{
 		ID: "C14", Variant: "plain", Shards: shards, Run: run, Replay: replay,
-		Rule: "every member sequence up to the length bound over the value alphabet {implicit, 0, 1, 7, -1, -5, int32 and uint32 extremes and their neighbours, 2^63, -(2^64-1)} with every pattern of fresh/repeated member names, for enumeration and bits, through NewEnumType/NewBitfield Set/SetNext and through module text + Process; the oracle is the RFC 7950 rule as a fold; after the first member the rule rejects only 'an error is reported' is required; states = distinct (kind, path, sequence); non-trivial = sequences of two or more members",
+		Rule:        "every member sequence up to the length bound over the value alphabet {implicit, 0, 1, 7, -1, -5, int32 and uint32 extremes and their neighbours, 2^63, -(2^64-1)} with every pattern of fresh/repeated member names, for enumeration and bits, through NewEnumType/NewBitfield Set/SetNext and through module text + Process; the oracle is the RFC 7950 rule as a fold; after the first member the rule rejects only 'an error is reported' is required; states = distinct (kind, path, sequence); non-trivial = sequences of two or more members",
 		Assumptions: []string{"a boundary alphabet stands in for the int64 value domain", "uniqueness of bit positions is not claimed by the property and not checked"},
 	})
 }
